@@ -119,6 +119,8 @@ def check_property(pid, tier, seed, repo_src, verif, jobs=16, only=None, verbose
     violations, undecided, crashes, kf_lines = [], [], [], []
     detail = {}
     n_ob = n_dis = 0
+    nb_ob = nb_dis = 0
+    bounded_list = []
     functions = []
     samples = []
     xc = {'samples': 0, 'compared': 0, 'agreed': 0}
@@ -144,15 +146,24 @@ def check_property(pid, tier, seed, repo_src, verif, jobs=16, only=None, verbose
                 xc[k] += x.get(k, 0)
             if x.get('disagreements'):
                 crashes.append(f"{r['contract']}: symbolic executor and CPython disagree: {json.dumps(x['disagreements'][:1], default=str)[:1500]}")
+        bound = r.get('bounded')
+        if bound:
+            bounded_list.append({'contract': f"{r['sidecar'].split('.')[-1]}.{r['contract']}", 'function': r['target'], 'bound': bound,
+                                 'obligations': len(r['obligations']), 'discharged': sum(1 for o in r['obligations'] if o['status'] == 'discharged')})
         for o in r['obligations']:
             key = obligation_key(r, o)
-            n_ob += 1
+            if bound:
+                nb_ob += 1
+                nb_dis += 1 if o['status'] == 'discharged' else 0
+            else:
+                n_ob += 1
             solver_ms += o.get('ms', 0)
             for q in o['queries']:
                 backends[q['backend']] = backends.get(q['backend'], 0) + 1
             if o['status'] == 'discharged':
-                n_dis += 1
-                if len(samples) < 6 and o['queries'] and o['id'].startswith('post'):
+                if not bound:
+                    n_dis += 1
+                if len(samples) < 6 and o['queries'] and o['id'].startswith('post') and not bound:
                     samples.append({'obligation': key, 'function': r['target'], 'verdict': 'discharged',
                                     'queries': o['queries'][:4]})
                 continue
@@ -238,7 +249,8 @@ def check_property(pid, tier, seed, repo_src, verif, jobs=16, only=None, verbose
             'samples': samples or [{'note': 'no SMT obligation sample available'}],
             'functions_under_contract': functions,
             'extra_obligations': extras,
-            'bounded_standins_not_counted_as_proved': standins,
+            'bounded_standins_not_counted_as_proved': {'contracts_with_a_stated_bound': bounded_list, 'obligations': nb_ob, 'discharged': nb_dis,
+                                                       'other': standins},
             'solver': {'backends': backends, 'solver_ms_total': solver_ms},
             'cpython_crosscheck': xc,
             'undecided': undecided, 'known_findings_hit': kf_lines,
@@ -252,7 +264,7 @@ def check_property(pid, tier, seed, repo_src, verif, jobs=16, only=None, verbose
 
     for line in kf_lines:
         print(line)
-    print(f'{pid}: {n_dis}/{n_ob} obligations discharged over {len(functions)} functions under contract; '
+    print(f'{pid}: {n_dis}/{n_ob} obligations discharged (+ {nb_dis}/{nb_ob} bounded, not counted as proved) over {len(functions)} functions under contract; '
           f'crosscheck {xc["agreed"]}/{xc["compared"]}; {wall}s')
     if crashes:
         for c in crashes:
@@ -267,7 +279,7 @@ def check_property(pid, tier, seed, repo_src, verif, jobs=16, only=None, verbose
         for u in undecided:
             print('UNDECIDED', u)
         return 2
-    if n_ob == 0:
+    if n_ob + nb_ob == 0:
         print('UNDECIDED no obligations were generated (vacuous check)')
         return 2
     return 0
